@@ -153,6 +153,12 @@ func (x *Exec) evalArgs(call *ast.CallExpr, sig *types.Signature, env *Env) []Te
 		} else if i < params.Len() {
 			pt = params.At(i).Type()
 		}
+		if _, isLit := ast.Unparen(a).(*ast.FuncLit); isLit && pt != nil && x.calledByContract(call) {
+			// a closure literal passed as an argument: an opaque value here (its meaning is given to the
+			// callee's fv_<param> symbol by bindClosureUF when the callee is called by contract)
+			args = append(args, x.fresh("closure", pt))
+			continue
+		}
 		args = append(args, x.evalAs(a, env, pt))
 	}
 	if sig.Variadic() && !call.Ellipsis.IsValid() {
@@ -840,6 +846,22 @@ func (x *Exec) callByContract(fi *FuncInfo, fc *FuncContract, call *ast.CallExpr
 		a.GoT = sig.Params().At(i).Type()
 		pre.locals[sig.Params().At(i).Name()] = a
 	}
+	// closure literals passed for function-valued parameters: the callee's contract speaks about fv_<param>;
+	// here that symbol is DEFINED by the closure body (single return expression; captured variables are the caller's
+	// current values).  Only one definition per symbol and verification unit is allowed.
+	for i := 0; i < sig.Params().Len() && i < len(call.Args); i++ {
+		p := sig.Params().At(i)
+		psig, isFn := p.Type().Underlying().(*types.Signature)
+		fl, isLit := ast.Unparen(call.Args[i]).(*ast.FuncLit)
+		if !isFn || !isLit || psig.Results().Len() != 1 || len(fl.Body.List) != 1 {
+			continue
+		}
+		ret, ok := fl.Body.List[0].(*ast.ReturnStmt)
+		if !ok || len(ret.Results) != 1 {
+			continue
+		}
+		x.bindClosureUF("fv_"+sanitize(p.Name()), fl, ret.Results[0], env)
+	}
 	// ghost bindings
 	callerSc := x.scopeAt(env, call.Pos())
 	for _, g := range fc.Ghosts {
@@ -1172,4 +1194,74 @@ func (x *Exec) callOrdinal(call *ast.CallExpr, fn *types.Func) int {
 		return true
 	})
 	return found
+}
+
+// bindClosureUF: forall args :: name$0(args) == <closure result expression>.
+func (x *Exec) bindClosureUF(name string, fl *ast.FuncLit, result ast.Expr, env *Env) {
+	defer func() {
+		if r := recover(); r != nil {
+			if _, ok := r.(Unsupported); ok {
+				x.W.Note("closure passed for " + name + " is not expressible as a term: left uninterpreted")
+				return
+			}
+			panic(r)
+		}
+	}()
+	if x.W.closureBound == nil {
+		x.W.closureBound = map[string]bool{}
+	}
+	if x.W.closureBound[name] {
+		unsupported("second closure bound to %s in one verification unit", name)
+	}
+	info := x.cx.info
+	sub := env.clone()
+	var decls, argS []string
+	var sorts []Sort
+	for _, f := range fl.Type.Params.List {
+		for _, id := range f.Names {
+			obj := info.Defs[id]
+			x.W.nfresh++
+			qn := fmt.Sprintf("%s!c%d", id.Name, x.W.nfresh)
+			so := x.W.SortOf(obj.Type())
+			v := T(qn, so)
+			v.GoT = obj.Type()
+			sub.vars[obj] = v
+			decls = append(decls, fmt.Sprintf("(%s %s)", qn, so))
+			argS = append(argS, qn)
+			sorts = append(sorts, so)
+		}
+	}
+	var body Term
+	func() {
+		x.noFacts++
+		x.quiet++
+		savedTM := x.termMode
+		x.termMode = true
+		defer func() { x.noFacts--; x.quiet--; x.termMode = savedTM }()
+		body = x.eval(result, sub)
+	}()
+	rs := x.W.SortOf(info.TypeOf(result))
+	if body.Sort != rs {
+		unsupported("closure result sort")
+	}
+	fn := name + "$0"
+	x.W.DeclareFun(fn, sorts, rs)
+	appS := "(" + fn + " " + strings.Join(argS, " ") + ")"
+	x.W.Facts = append(x.W.Facts, fmt.Sprintf("(forall (%s) (! (= %s %s) :pattern (%s)))", strings.Join(decls, " "), appS, body.S, appS))
+	x.W.closureBound[name] = true
+	x.W.Note("closure literal defines " + name + " at this call (single definition per unit)")
+}
+
+// calledByContract: the callee of call is a module function with a (non-inline) contract.
+func (x *Exec) calledByContract(call *ast.CallExpr) bool {
+	fn := x.calleeOf(call)
+	if fn == nil {
+		return false
+	}
+	fi := x.P.ByObj[fn]
+	if fi == nil {
+		return false
+	}
+	fc := x.P.Contracts.Funcs[fi.Key]
+	return fc != nil && !fc.Flags["inline"]
 }
